@@ -192,6 +192,36 @@ PROPS = {
     ),
 }
 
+#: the files each property is anchored in (properties.jsonl `anchors.files`, plus the files the anchored code
+#: directly builds on): every definition of these files is pinned (extract/gen_pins.py, Props/Pin_<key>.lean)
+PINS = {
+    'C01': ['loop', 'waitq', 'timing', 'notification', 'context', 'init'],
+    'C02': ['loop', 'waitq', 'notification', 'tracked', 'condition'],
+    'C03': ['loop', 'notification', 'condition', 'timing', 'task', 'context'],
+    'C04': ['context', 'task'],
+    'C05': ['context', 'task', 'concurrent_exception'],
+    'C06': ['task', 'context'],
+    'C07': ['context', 'notification', 'condition', 'timing', 'init'],
+    'C08': ['condition', 'flag', 'tracked', 'task', 'timing', 'resource', 'resource_level'],
+    'C09': ['locks', 'notification'],
+    'C10': ['streams', 'locks', 'notification'],
+    'C11': ['streams', 'notification'],
+    'C12': ['resource', 'resource_level', 'tracked'],
+    'C13': ['pipe', 'notification'],
+    'C14': ['timing', 'notification'],
+    'C15': ['init', 'loop', 'handler'],
+    'C16': ['basics', 'context', 'streams'],
+    'C17': ['concurrent_exception'],
+    'C18': ['py_core', 'py_events', 'py_awaitable', 'py_exceptions'],
+    'C19': ['py_res_base', 'py_res_container', 'py_res_resource', 'py_res_store'],
+    'C20': ['notification', 'condition', 'flag', 'timing', 'tracked', 'streams', 'resource', 'pipe', 'context', 'basics'],
+}
+for _pid, _keys in PINS.items():
+    PROPS[_pid]['gen'] = list(PROPS[_pid]['gen']) + ['Pins']
+    PROPS[_pid]['props'] = list(PROPS[_pid]['props']) + ['Pin_' + k for k in _keys]
+    PROPS[_pid]['trusted_base'] = list(PROPS[_pid]['trusted_base']) + [
+        'every definition of ' + ', '.join(_keys) + ' is compared with the recorded source on every run (Gen/Pins): the hand-written model is tied to exactly that code']
+
 #: texts for MANIFEST.json (level, note, technique, DESIGN.md section)
 MANIFEST_TEXT = {
     'C17': dict(
